@@ -41,6 +41,14 @@ The functions follow the code (file + function):
   wrapping, 64-bit `usize`).  `CliCtr.nextId` — `HydrateSharedContext::next_id`
   (hydration_context/src/hydrate.rs): `id.fetch_add(1)` **whatever `is_hydrating` is**.
 
+* `b64Enc`/`b64Dec` with `b64Std` — leptos_server/src/lib.rs `IntoEncodedString for Vec<u8>` /
+  `FromEncodedStr for [u8]`: `base64::engine::general_purpose::STANDARD_NO_PAD` (alphabet
+  `A–Z a–z 0–9 + /`, no padding written, none accepted, non-zero trailing bits rejected) — the text
+  form of every binary codec (`RkyvCodec`, any `Encoded = Vec<u8>`).  `String`/`str` are the identity.
+* `Consume`, `Srv.consumePoll` — `SsrSharedContext::consume_buffers` (the second server exit, for
+  custom hydration contexts): takes both buffers at its first poll and awaits the futures **one
+  after the other in creation order**.
+
 ## Browser side (what the client reads), written from the specifications
 * `jsEscape`, `jsStrBody`, `jsStrLit`, `jsDecodeStringLiteral` — ECMA-262
   §12.9.4 double-quoted *StringLiteral* in sloppy mode (classic `<script>`):
@@ -350,6 +358,12 @@ inductive Phase where
   | done
   deriving Repr, DecidableEq
 
+/-- a running `consume_buffers()` future: the entries it still has to await, the pairs it has -/
+structure Consume where
+  rest : List Entry
+  acc : List (Nat × Str)
+  deriving Repr, DecidableEq
+
 structure Srv where
   ctr : SrvCtr
   sync : List (Nat × Str)      -- `sync_buf` (never written by the crate)
@@ -358,6 +372,7 @@ structure Srv where
   sealed : List Nat
   incomplete : List Nat
   phase : Phase
+  consuming : Option Consume := none
   deriving Repr
 
 def Srv.new (islands : Bool) : Srv :=
@@ -376,8 +391,40 @@ def completeIn (key : Nat) : List Entry → List Entry
   | [] => []
   | e :: es => if e.key = key then { e with ready := true } :: es else e :: completeIn key es
 
-/-- the harness sends the value on the oneshot of write `key` -/
-def Srv.complete (s : Srv) (key : Nat) : Srv := { s with buf := completeIn key s.buf }
+/-- the harness sends the value on the oneshot of write `key` (the future may already have been
+moved into a running `consume_buffers`) -/
+def Srv.complete (s : Srv) (key : Nat) : Srv :=
+  { s with buf := completeIn key s.buf,
+           consuming := s.consuming.map fun c => { c with rest := completeIn key c.rest } }
+
+/-- `write_async` with a future that is ready at once (`SharedValue`) -/
+def Srv.writeReady (s : Srv) (key id : Nat) (v : Str) : Srv :=
+  { s with buf := s.buf ++ [⟨key, id, v, true⟩] }
+
+/-- the `for (id, fut) in async_data { fut.await }` loop: awaits the head future only -/
+def consumeAdvance : List Entry → List (Nat × Str) × List Entry
+  | [] => ([], [])
+  | e :: es =>
+    if e.ready then
+      let r := consumeAdvance es
+      ((e.id, e.val) :: r.1, r.2)
+    else ([], e :: es)
+
+def Consume.poll (c : Consume) : Consume :=
+  let r := consumeAdvance c.rest
+  { rest := r.2, acc := c.acc ++ r.1 }
+
+/-- one poll of the `consume_buffers()` future; `some pairs` = it completed with these pairs.
+The first poll takes `sync_buf` and `async_buf`. -/
+def Srv.consumePoll (s : Srv) : Option (List (Nat × Str)) × Srv :=
+  let c0 : Consume := match s.consuming with
+    | some c => c
+    | none => { rest := s.buf, acc := s.sync }
+  let s0 : Srv := match s.consuming with
+    | some _ => s
+    | none => { s with sync := [], buf := [] }
+  let c := c0.poll
+  (if c.rest.isEmpty then some c.acc else none, { s0 with consuming := some c })
 
 def readyOf : List Entry → List Entry
   | [] => []
@@ -930,6 +977,59 @@ def jsonEncBody : Str → Str
 
 /-- `serde_json::to_string(&s)` for a string `s` (= `JsonSerdeCodec::encode`, the codec of `Resource::new`) -/
 def jsonStrEncode (s : Str) : Str := 34 :: (jsonEncBody s ++ [34])
+
+/-! ## codecs: the text form of a value (`IntoEncodedString` / `FromEncodedStr`) -/
+
+/-- `base64::alphabet::STANDARD` -/
+def b64Std : List Nat :=
+  [65, 66, 67, 68, 69, 70, 71, 72, 73, 74, 75, 76, 77, 78, 79, 80, 81, 82, 83, 84, 85, 86, 87, 88, 89, 90,
+   97, 98, 99, 100, 101, 102, 103, 104, 105, 106, 107, 108, 109, 110, 111, 112, 113, 114, 115, 116, 117,
+   118, 119, 120, 121, 122, 48, 49, 50, 51, 52, 53, 54, 55, 56, 57, 43, 47]
+
+/-- `base64::alphabet::URL_SAFE` (not used by leptos_server; for the regression seeds) -/
+def b64UrlSafe : List Nat := b64Std.take 62 ++ [45, 95]
+
+def sextetChar (al : List Nat) (i : Nat) : Nat := al.getD i 0
+
+def sextetOfGo : List Nat → Nat → Nat → Option Nat
+  | [], _, _ => none
+  | x :: xs, c, i => if x = c then some i else sextetOfGo xs c (i + 1)
+
+def sextetOf (al : List Nat) (c : Nat) : Option Nat := sextetOfGo al c 0
+
+/-- `GeneralPurpose::new(al, NO_PAD).encode(bytes)` -/
+def b64Enc (al : List Nat) : List Nat → Str
+  | [] => []
+  | [a] => [sextetChar al (a / 4), sextetChar al (a % 4 * 16)]
+  | [a, b] => [sextetChar al (a / 4), sextetChar al (a % 4 * 16 + b / 16), sextetChar al (b % 16 * 4)]
+  | a :: b :: c :: rest =>
+    sextetChar al (a / 4) :: sextetChar al (a % 4 * 16 + b / 16) :: sextetChar al (b % 16 * 4 + c / 64)
+      :: sextetChar al (c % 64) :: b64Enc al rest
+
+/-- `GeneralPurpose::new(al, NO_PAD).decode(text)`: no padding accepted, a lone trailing symbol
+and non-zero trailing bits are errors -/
+def b64Dec (al : List Nat) : Str → Option (List Nat)
+  | [] => some []
+  | [_] => none
+  | [p, q] =>
+    match sextetOf al p, sextetOf al q with
+    | some s0, some s1 => if s1 % 16 = 0 then some [s0 * 4 + s1 / 16] else none
+    | _, _ => none
+  | [p, q, r] =>
+    match sextetOf al p, sextetOf al q, sextetOf al r with
+    | some s0, some s1, some s2 =>
+      if s2 % 4 = 0 then some [s0 * 4 + s1 / 16, s1 % 16 * 16 + s2 / 4] else none
+    | _, _, _ => none
+  | p :: q :: r :: t :: rest =>
+    match sextetOf al p, sextetOf al q, sextetOf al r, sextetOf al t, b64Dec al rest with
+    | some s0, some s1, some s2, some s3, some tl =>
+      some ((s0 * 4 + s1 / 16) :: (s1 % 16 * 16 + s2 / 4) :: (s2 % 4 * 64 + s3) :: tl)
+    | _, _, _, _, _ => none
+
+/-- `Vec<u8>::into_encoded_string` -/
+def encBytes (bs : List Nat) : Str := b64Enc b64Std bs
+/-- `<[u8]>::from_encoded_str` -/
+def decBytes (s : Str) : Option (List Nat) := b64Dec b64Std s
 
 /-! ## UTF-8 (transport between the drivers) -/
 
